@@ -46,12 +46,16 @@ static void ref_enc(const DT &t, const DV &v, bytes &o)
     }
 }
 
-// operator< of the key types (integers, std::string, std::pair of keys)
+// std::less<K> of every type that can be a std::map key, written from the C++ rules: integers numerically,
+// float/double by the hardware comparison, std::string bytewise, vector / pair / tuple / user type (std::tie) /
+// map (over its entries as pairs) lexicographically.  Keys never contain NaN (the generator excludes them).
 static bool dv_less(const DT &t, const DV &a, const DV &b)
 {
     switch (t.k)
     {
     case DT::SC:
+        if (t.sc == 8) { float x, y; uint32_t p = (uint32_t)a.bits, q = (uint32_t)b.bits; memcpy(&x, &p, 4); memcpy(&y, &q, 4); return x < y; }
+        if (t.sc == 9) { double x, y; memcpy(&x, &a.bits, 8); memcpy(&y, &b.bits, 8); return x < y; }
         if (sc_signed(t.sc))
         {
             int sh = 64 - 8 * SCW[t.sc];
@@ -59,6 +63,7 @@ static bool dv_less(const DT &t, const DV &a, const DV &b)
         }
         return a.bits < b.bits;
     case DT::STR:
+    case DT::BUF:
     {
         size_t n = std::min(a.bytes.size(), b.bytes.size());
         for (size_t i = 0; i < n; i++)
@@ -69,11 +74,37 @@ static bool dv_less(const DT &t, const DV &a, const DV &b)
         return a.bytes.size() < b.bytes.size();
     }
     case DT::PAIR:
-        if (dv_less(t.kids[0], a.kids[0], b.kids[0])) return true;
-        if (dv_less(t.kids[0], b.kids[0], a.kids[0])) return false;
-        return dv_less(t.kids[1], a.kids[1], b.kids[1]);
-    default: return false;
+    case DT::TUPLE:
+    case DT::STRUCT:
+        for (size_t i = 0; i < t.kids.size(); i++)
+        {
+            if (dv_less(t.kids[i], a.kids[i], b.kids[i])) return true;
+            if (dv_less(t.kids[i], b.kids[i], a.kids[i])) return false;
+        }
+        return false;
+    case DT::VEC:
+    {
+        size_t n = std::min(a.kids.size(), b.kids.size());
+        for (size_t i = 0; i < n; i++)
+        {
+            if (dv_less(t.kids[0], a.kids[i], b.kids[i])) return true;
+            if (dv_less(t.kids[0], b.kids[i], a.kids[i])) return false;
+        }
+        return a.kids.size() < b.kids.size();
     }
+    case DT::MAP:
+    {
+        size_t n = std::min(a.kids.size(), b.kids.size());
+        for (size_t i = 0; i < n; i++)
+            for (int side = 0; side < 2; side++)
+            {
+                if (dv_less(t.kids[side], a.kids[i].kids[side], b.kids[i].kids[side])) return true;
+                if (dv_less(t.kids[side], b.kids[i].kids[side], a.kids[i].kids[side])) return false;
+            }
+        return a.kids.size() < b.kids.size();
+    }
+    }
+    return false;
 }
 
 // reference decoder.  clamp=false: strict (false on a short input);
@@ -94,11 +125,17 @@ static bool ref_dec(const DT &t, const uint8_t *p, size_t n, size_t &pos, bool c
     case DT::SC: return rd(SCW[t.sc], v.bits);
     case DT::STR:
     case DT::BUF:
+    {
         if (!rd(2, c)) return false;
-        if (n - pos < c) return false;
-        v.bytes.assign((const char *)p + pos, c);
-        pos += c;
+        if (!clamp && n - pos < c) return false;
+        // bounded reader: a std::string has its announced length, the missing bytes are zero;
+        // an igris::buffer is a view into the input and is cut to the bytes that exist
+        size_t len = std::min<size_t>(c, n - pos);
+        v.bytes.assign((const char *)p + pos, len);
+        if (t.k == DT::STR) v.bytes.resize(c, '\0');
+        pos += len;
         return true;
+    }
     case DT::VEC:
         if (!rd(2, c)) return false;
         for (uint64_t i = 0; i < c; i++)
@@ -143,7 +180,8 @@ static bool ref_dec(const DT &t, const uint8_t *p, size_t n, size_t &pos, bool c
 struct feat
 {
     bool empty = false, nul = false, nan = false, l255 = false, l256 = false, l65535 = false, big = false,
-         map = false, ustruct = false, vecobj = false, neg = false;
+         map = false, ustruct = false, vecobj = false, neg = false, kfloat = false, kvec = false, ktuple = false, kuser = false, kmap = false,
+         kzero = false;
     int depth = 0;
 };
 static int walk(const DT &t, const DV &v, feat &f)
@@ -176,6 +214,22 @@ static int walk(const DT &t, const DV &v, feat &f)
     case DT::MAP:
         f.map = true;
         len(v.kids.size());
+        switch (t.kids[0].k)
+        {
+        case DT::SC:
+            if (sc_float(t.kids[0].sc))
+            {
+                f.kfloat = true;
+                for (auto &e : v.kids)
+                    if ((e.kids[0].bits << (t.kids[0].sc == 8 ? 33 : 1)) == 0) f.kzero = true;
+            }
+            break;
+        case DT::VEC: f.kvec = true; break;
+        case DT::TUPLE: case DT::PAIR: f.ktuple = true; break;
+        case DT::STRUCT: f.kuser = true; break;
+        case DT::MAP: f.kmap = true; break;
+        default: break;
+        }
         for (auto &e : v.kids)
         {
             d = std::max(d, walk(t.kids[0], e.kids[0], f));
@@ -207,6 +261,12 @@ static void tag_value(const DT &t, const DV &v, out &o)
     if (f.l65535) tag1(o, "len65535");
     if (f.big) tag1(o, "image>=65536");
     if (f.map) tag1(o, "map");
+    if (f.kfloat) tag1(o, "key-float");
+    if (f.kzero) tag1(o, "key-signed-zero");
+    if (f.kvec) tag1(o, "key-vector");
+    if (f.ktuple) tag1(o, "key-pair-tuple");
+    if (f.kuser) tag1(o, "key-user-type");
+    if (f.kmap) tag1(o, "key-map");
     if (f.ustruct) tag1(o, "user-type");
     if (f.vecobj) tag1(o, "vector-of-objects");
     if (d >= 3) tag1(o, "depth3");
@@ -295,10 +355,10 @@ static void op_decode(char st, const std::string &desc, const std::string &inhex
     if (!dt_of(desc, dt)) { o.result = "bad-op"; o.fail("unparsable op"); return; }
     if (!S.has(desc)) { o.result = "unsupported"; o.fail("type not in the harness family: " + desc); return; }
     bytes input = unhex(inhex);
-    // reference first: the archive reader is only ever given inputs it can decode
+    // reference: both readers are bounded (missing bytes read as zero)
     DV rv;
     size_t rpos = 0;
-    bool rok = ref_dec(dt, input.data(), input.size(), rpos, st == 's', rv);
+    bool rok = ref_dec(dt, input.data(), input.size(), rpos, true, rv);
     if (!rok) { o.result = "fault"; o.tag("short-input-not-run"); return; }
     exact_buf eb(input);
     size_t consumed = 0;
@@ -320,9 +380,9 @@ static void op_decode(char st, const std::string &desc, const std::string &inhex
     }
 }
 
-static void op_trunc(const std::string &desc, const std::string &val, const std::string &ks, out &o)
+static void op_trunc(char st, const std::string &desc, const std::string &val, const std::string &ks, out &o)
 {
-    stack_iface &S = stack_s();
+    stack_iface &S = stack_of(st);
     DT dt;
     DV dv;
     if (!dt_of(desc, dt) || !dv_of(dt, val, dv)) { o.result = "bad-op"; o.fail("unparsable op"); return; }
@@ -394,6 +454,45 @@ static void op_capped(char kind, const std::string &caps, const std::string &pay
     if (co.consumed != co.enc.size()) o.fail("consumed " + std::to_string(co.consumed) + " bytes, serialize produced " + std::to_string(co.enc.size()));
     o.tag(payload.size() > effcap ? "capped-short-destination" : payload.size() == effcap ? "capped-exact" : "capped-fits");
     if (!rest.empty()) tag1(o, "rest-nonempty");
+}
+
+// load(writable_buffer&) and the value after it on a TRUNCATED input: the bounded reader clamps the read and the skip
+static void op_capped_trunc(const std::string &caps, const std::string &payhex, const std::string &desc,
+                            const std::string &val, const std::string &ks, out &o)
+{
+    DT dt;
+    DV dv;
+    if (!dt_of(desc, dt) || !dv_of(dt, val, dv)) { o.result = "bad-op"; o.fail("unparsable op"); return; }
+    if (!stack_a().has(desc)) { o.result = "unsupported"; o.fail("type not in the harness family: " + desc); return; }
+    size_t cap = strtoull(caps.c_str(), 0, 10), k = strtoull(ks.c_str(), 0, 10);
+    bytes pb = unhex(payhex);
+    std::string payload(pb.begin(), pb.end());
+    bytes full;
+    ref_le(payload.size(), 2, full);
+    full.insert(full.end(), pb.begin(), pb.end());
+    ref_enc(dt, dv, full);
+    k = std::min(k, full.size());
+    cap_out co = a_capped('w', cap, payload, desc, dv, bytes(), k);
+    // reference: the missing bytes read as zero, the position never passes k
+    bytes in(full.begin(), full.begin() + k);
+    size_t pos = std::min<size_t>(2, k);
+    size_t len = (k > 0 ? in[0] : 0) | (k > 1 ? in[1] << 8 : 0);
+    size_t readsize = std::min(cap, len);
+    std::string eg(readsize, '\0');
+    size_t got = std::min(readsize, k - pos);
+    if (got) memcpy(&eg[0], in.data() + pos, got);
+    pos += got;
+    pos += std::min(len - readsize, k - pos);
+    DV rv;
+    ref_dec(dt, in.data(), in.size(), pos, true, rv);
+    std::string gs = show(dt, co.val);
+    o.result = "\"" + (co.got.empty() ? "" : hex(co.got)) + "\" " + gs + " " + std::to_string(co.consumed);
+    if (co.got != eg) o.fail("capped load on a truncated input: stored bytes are not the available bytes zero-filled");
+    if (!co.dst_clean) o.fail("capped load wrote outside the destination");
+    if (gs != show(dt, rv) || co.consumed != pos) o.fail("value after a capped load on a truncated input differs from the reference (missing bytes are zero)");
+    if (co.consumed > k) o.fail("archive reader position beyond the supplied bytes");
+    o.tag("capped-truncated");
+    if (len > cap && k < full.size()) tag1(o, "skip-clamped");
 }
 
 // binary_buffer_writer (memcpy into a caller-supplied buffer) writes what binary_string_writer writes
@@ -572,6 +671,7 @@ static void run_op(const std::vector<std::string> &w, const std::string &, out &
         return;
     }
     if (op == "cap" && w.size() == 7) return op_capped(w[1].size() == 1 ? w[1][0] : '?', w[2], w[3], w[4], w[5], w[6], o);
+    if (op == "capt" && w.size() == 6) return op_capped_trunc(w[1], w[2], w[3], w[4], w[5], o);
     if (op == "bw" && w.size() == 3) return op_binwriter(w[1], w[2], o);
     if (op == "dat" && w.size() == 4) return op_data(w[1], w[2], w[3], o);
     if ((op == "wa" || op == "ws") && w.size() == 4) return op_wrap(op[1], w[1], w[2], w[3], o);
@@ -586,13 +686,25 @@ static void run_op(const std::vector<std::string> &w, const std::string &, out &
     }
     if ((op == "da" || op == "ds") && w.size() == 3) return op_decode(op[1], w[1], w[2], nullptr, o);
     if ((op == "ga" || op == "gs") && w.size() == 4) return op_decode(op[1], w[1], w[2], &w[3], o);
-    if (op == "ts" && w.size() == 4) return op_trunc(w[1], w[2], w[3], o);
+    if ((op == "ts" || op == "tb") && w.size() == 4) return op_trunc(op == "ts" ? 's' : 'a', w[1], w[2], w[3], o);
     o.result = "bad-op";
     o.fail("unknown op");
 }
 
 // ------------------------------------------------------------------ gen
+static int g_key_depth = 0; // > 0 while a map key is generated: no NaN (std::map needs a strict weak order)
+static uint64_t gen_scalar_any(int sc, rng &r);
 static uint64_t gen_scalar(int sc, rng &r)
+{
+    uint64_t b = gen_scalar_any(sc, r);
+    if (g_key_depth > 0)
+    {
+        if (sc == 8 && (b & 0x7f800000u) == 0x7f800000u && (b & 0x7fffffu)) b &= ~0x7fffffull;            // NaN -> inf
+        if (sc == 9 && (b & 0x7ff0000000000000ull) == 0x7ff0000000000000ull && (b & 0xfffffffffffffull)) b &= ~0xfffffffffffffull;
+    }
+    return b;
+}
+static uint64_t gen_scalar_any(int sc, rng &r)
 {
     int w = SCW[sc];
     uint64_t mask = w == 8 ? ~0ull : ((1ull << (8 * w)) - 1);
@@ -634,6 +746,7 @@ static size_t gen_len(rng &r, size_t cap)
     size_t n = r.chance(70) ? sp[r.below(sizeof sp / sizeof *sp)] : r.below(40);
     return std::min(n, cap);
 }
+static DV mk_map_fwd(const DT &t, std::vector<DV> es);
 // cap = largest container/string size allowed at this level
 static DV gen_val(const DT &t, rng &r, size_t cap)
 {
@@ -665,13 +778,13 @@ static DV gen_val(const DT &t, rng &r, size_t cap)
         for (size_t i = 0; i < n; i++)
         {
             DV e;
-            e.kids.push_back(gen_val(t.kids[0], r, 6));
+            g_key_depth++;
+            e.kids.push_back(gen_val(t.kids[0], r, t.kids[0].k == DT::SC || t.kids[0].k == DT::STR ? 6 : 3));
+            g_key_depth--;
             e.kids.push_back(gen_val(t.kids[1], r, inner));
             es.push_back(e);
         }
-        std::stable_sort(es.begin(), es.end(), [&](const DV &a, const DV &b) { return dv_less(t.kids[0], a.kids[0], b.kids[0]); });
-        for (auto &e : es)
-            if (v.kids.empty() || dv_less(t.kids[0], v.kids.back().kids[0], e.kids[0])) v.kids.push_back(e);
+        v = mk_map_fwd(t, es);
         break;
     }
     }
@@ -698,9 +811,48 @@ static std::string ks_for(size_t len, rng &r)
     for (size_t k : ks) s += (s.empty() ? "" : ",") + std::to_string(k);
     return s;
 }
+static bool has_map(const DT &t)
+{
+    if (t.k == DT::MAP) return true;
+    for (auto &k : t.kids)
+        if (has_map(k)) return true;
+    return false;
+}
+// the value as the C++ object holds it: every map inside rebuilt by std::map::insert and iterated.  The generator
+// orders entries with dv_less; std::less<K> must agree (self-check of the harness' reference comparator).
+static DV canon_a(const std::string &d, const DT &t, const DV &v)
+{
+    if (!has_map(t) || !stack_a().has(d)) return v;
+    DV c = stack_a().canon(d, v);
+    if (show(t, c) != show(t, v))
+    {
+        fprintf(stderr, "C09 harness: dv_less disagrees with std::less for %s:\n  generated %s\n  std::map  %s\n", d.c_str(), show(t, v).c_str(), show(t, c).c_str());
+        exit(3);
+    }
+    return c;
+}
 static void emit_rt(char st, const std::string &d, const DT &t, const DV &v, const std::string &rest)
 {
-    printf("%c %s %s %s\n", st, d.c_str(), show(t, v).c_str(), rest.c_str());
+    printf("%c %s %s %s\n", st, d.c_str(), show(t, st == 'a' ? canon_a(d, t, v) : v).c_str(), rest.c_str());
+}
+static DV mk_map(const DT &t, std::vector<DV> es);
+static DV mk_map_fwd(const DT &t, std::vector<DV> es) { return mk_map(t, es); }
+// the bounded archive reader on every / sampled truncation point of an encoding
+static void emit_tb(const std::string &d, const DT &t, const DV &v, rng &r)
+{
+    DV c = canon_a(d, t, v);
+    bytes e;
+    ref_enc(t, c, e);
+    printf("tb %s %s %s\n", d.c_str(), show(t, c).c_str(), ks_for(e.size(), r).c_str());
+}
+// entries in any order, possibly with equivalent keys -> the map value (first of equivalent keys wins)
+static DV mk_map(const DT &t, std::vector<DV> es)
+{
+    DV v;
+    std::stable_sort(es.begin(), es.end(), [&](const DV &a, const DV &b) { return dv_less(t.kids[0], a.kids[0], b.kids[0]); });
+    for (auto &e : es)
+        if (v.kids.empty() || dv_less(t.kids[0], v.kids.back().kids[0], e.kids[0])) v.kids.push_back(e);
+    return v;
 }
 static void emit_ts(const std::string &d, const DT &t, const DV &v, rng &r)
 {
@@ -803,6 +955,46 @@ static void gen(rng &r, const std::string &tier)
                 if (!skip) emit_rt('a', "M(u8,u8)", tm, m, "-");
             }
     }
+    // (2b) maps over float and vector keys: every subset of a small key set, inserted in two orders
+    {
+        DT tf, tv, td;
+        dt_of("M(f32,u8)", tf); dt_of("M(V(u8),u8)", tv); dt_of("M(f64,str)", td);
+        const uint32_t fk[7] = {0xff800000u, 0xbf800000u, 0x80000000u, 0x00000000u, 0x00000001u, 0x3f800000u, 0x7f800000u};
+        const uint64_t dk[5] = {0xfff0000000000000ull, 0x8000000000000000ull, 0, 0x3ff0000000000000ull, 0x7ff0000000000000ull};
+        for (int mask = 0; mask < 128; mask++)
+            for (int rev = 0; rev < 2; rev++)
+            {
+                std::vector<DV> es;
+                for (int k = 0; k < 7; k++)
+                    if (mask >> k & 1) { DV e; e.kids.push_back(DV::scalar(fk[k])); e.kids.push_back(DV::scalar(k + 1)); es.push_back(e); }
+                if (rev) std::reverse(es.begin(), es.end()); // -0.0 / +0.0: whichever comes first stays
+                if (rev && !(mask >> 2 & 1 && mask >> 3 & 1)) continue;
+                emit_rt('a', "M(f32,u8)", tf, mk_map(tf, es), "-");
+            }
+        for (int mask = 0; mask < 32; mask++)
+        {
+            std::vector<DV> es;
+            for (int k = 0; k < 5; k++)
+                if (mask >> k & 1) { DV e; e.kids.push_back(DV::scalar(dk[k])); e.kids.push_back(DV::str(std::string(k % 3, 'a'))); es.push_back(e); }
+            emit_rt('a', "M(f64,str)", td, mk_map(td, es), mask % 2 ? "-" : "ff");
+        }
+        std::vector<DV> vk;
+        all_seqs(3, 2, [&](const std::vector<size_t> &sq) {
+            DV v;
+            const uint8_t al[3] = {0x00, 0x01, 0xff};
+            for (size_t i : sq) v.kids.push_back(DV::scalar(al[i]));
+            vk.push_back(v);
+        });
+        for (int i = 0; i < (th ? 4000 : 150); i++)
+        {
+            std::vector<DV> es;
+            uint64_t mask = r.next();
+            for (size_t k = 0; k < vk.size(); k++)
+                if (mask >> k & 1) { DV e; e.kids.push_back(vk[k]); e.kids.push_back(DV::scalar(r.below(256))); es.push_back(e); }
+            for (size_t k = 0; k < es.size(); k++) std::swap(es[k], es[r.below(es.size())]);
+            emit_rt('a', "M(V(u8),u8)", tv, mk_map(tv, es), "-");
+        }
+    }
     // (3) random values of every type of both families
     int reps = th ? 300 : 14, greps = th ? 60 : 5; // greps: the mechanically generated grid types
     size_t ha_n = stack_a().n_hand(), hs_n = stack_s().n_hand();
@@ -816,7 +1008,15 @@ static void gen(rng &r, const std::string &tier)
         {
             size_t cap = i % 7 == 6 ? 300 : i % 3 == 0 ? 3 : 12;
             emit_rt('a', d, t, gen_val(t, r, cap), gen_rest(r));
+            if (i % 3 == 0) emit_tb(d, t, gen_val(t, r, i % 2 ? 3 : 6), r);
         }
+    }
+    // scalars, strings and buffers through the bounded archive reader at every truncation point
+    for (const char *d : {"u8", "i16", "u32", "i64", "f32", "f64", "str", "buf"})
+    {
+        DT t;
+        dt_of(d, t);
+        for (int i = 0; i < (th ? 60 : 6); i++) emit_tb(d, t, gen_val(t, r, i % 2 ? 3 : 40), r);
     }
     for (size_t di = 0; di < fs.size(); di++)
     {
@@ -845,7 +1045,7 @@ static void gen(rng &r, const std::string &tier)
             if (d == "buf") { k--; continue; }
             DT t;
             dt_of(d, t);
-            line += " " + d + " " + show(t, gen_val(t, r, 4));
+            line += " " + d + " " + show(t, a ? canon_a(d, t, gen_val(t, r, 4)) : gen_val(t, r, 4));
         }
         puts(line.c_str());
     }
@@ -932,14 +1132,23 @@ static void gen(rng &r, const std::string &tier)
     //     and arbitrary small inputs to the bounded reader
     for (int i = 0; i < (th ? 800 : 40); i++)
     {
-        const char *ds[] = {"M(u8,u8)", "M(i8,u8)", "M(str,i32)", "M(P(u8,i8),str)", "M(i32,str)"};
-        const char *d = ds[r.below(5)];
+        const char *ds[] = {"M(u8,u8)", "M(i8,u8)", "M(str,i32)", "M(P(u8,i8),str)", "M(i32,str)", "M(V(u8),u8)", "M(f32,u8)", "M(f64,str)",
+                            "M(T(u8,str),u16)", "M(V(f32),u8)", "M(S(i16,str),u8)", "M(M(u8,u8),u8)", "M(V(str),V(u8))", "M(P(f64,u8),u8)"};
+        const char *d = ds[i < 28 ? i % 14 : r.below(14)];
         DT t;
         dt_of(d, t);
         DV v = gen_val(t, r, 8);
         std::vector<DV> es = v.kids;
         for (size_t k = 0; k < es.size(); k++) std::swap(es[k], es[r.below(es.size())]);
-        if (!es.empty() && r.chance(50)) { DV dup = es[r.below(es.size())]; dup.kids[1] = gen_val(t.kids[1], r, 3); es.insert(es.begin() + r.below(es.size() + 1), dup); }
+        if (!es.empty() && r.chance(50))
+        {
+            DV dup = es[r.below(es.size())];
+            dup.kids[1] = gen_val(t.kids[1], r, 3);
+            // an EQUIVALENT key need not be the same bits: -0.0 for +0.0
+            if (t.kids[0].k == DT::SC && sc_float(t.kids[0].sc) && (dup.kids[0].bits << (t.kids[0].sc == 8 ? 33 : 1)) == 0)
+                dup.kids[0].bits ^= t.kids[0].sc == 8 ? 0x80000000ull : 0x8000000000000000ull;
+            es.insert(es.begin() + r.below(es.size() + 1), dup);
+        }
         bytes e;
         ref_le(es.size(), 2, e);
         for (auto &x : es) { ref_enc(t.kids[0], x.kids[0], e); ref_enc(t.kids[1], x.kids[1], e); }
@@ -954,6 +1163,18 @@ static void gen(rng &r, const std::string &tier)
         for (auto &x : b) x = r.chance(85) ? (uint8_t)r.below(3) : r.chance(70) ? (uint8_t)r.below(16) : (uint8_t)r.next();
         if (n >= 2 && r.chance(90)) b[1] = (uint8_t)r.below(2); // keep the outer count moderate
         printf("ds %s %s\n", d.c_str(), hex(b).c_str());
+    }
+    // arbitrary short inputs to the bounded archive reader (maps with floating-point keys left out: arbitrary
+    // bytes may be NaN keys, which std::map does not order)
+    for (int i = 0; i < (th ? 3000 : 120); i++)
+    {
+        const std::string &d = fa[r.below(fa.size())];
+        if (d.find("M(") != std::string::npos && (d.find("f32") != std::string::npos || d.find("f64") != std::string::npos)) { i--; continue; }
+        size_t n = r.below(25);
+        bytes b(n);
+        for (auto &x : b) x = r.chance(85) ? (uint8_t)r.below(3) : r.chance(70) ? (uint8_t)r.below(16) : (uint8_t)r.next();
+        if (n >= 2 && r.chance(90)) b[1] = (uint8_t)r.below(2); // keep the outer count moderate
+        printf("da %s %s\n", d.c_str(), b.empty() ? "-" : hex(b).c_str());
     }
     // (7) extension: the remaining entry points
     puts("sizes2");
@@ -977,6 +1198,19 @@ static void gen(rng &r, const std::string &tier)
                 dt_of(d, t);
                 printf("cap %c %zu %s %s %s %s\n", kind, p.second, hex(gen_bytes(r, p.first)).c_str(), d, show(t, gen_val(t, r, 3)).c_str(), gen_rest(r).c_str());
             }
+        // capped load + following value on a truncated input (the reader clamps the read AND the skip)
+        for (int i = 0; i < (th ? 1500 : 120); i++)
+        {
+            const char *d = follow[i % 6];
+            DT t;
+            dt_of(d, t);
+            size_t len = i % 5 == 0 ? r.below(300) : r.below(9), cap = r.below(3) ? r.below(len + 2) : r.below(8);
+            DV v = gen_val(t, r, 3);
+            bytes e;
+            ref_enc(t, v, e);
+            size_t total = 2 + len + e.size();
+            printf("capt %zu %s %s %s %zu\n", cap, hex(gen_bytes(r, len)).c_str(), d, show(t, v).c_str(), i % 7 == 0 ? total : r.below(total + 1));
+        }
         // binary_buffer_writer
         for (const char *d : {"u8", "i16", "u32", "i64", "f32", "f64", "str", "V(u8)", "V(str)", "V(V(u8))", "V(i32)"})
         {
